@@ -754,6 +754,7 @@ pub fn run(cfg: &RunCfg, replay: Option<&[Step]>) -> RunOutput {
         let honest = !bc.args.chars().any(|c| !c.is_ascii()) && bc.args.len() < 20_000;
         if !honest {
             hostile_calls += 1;
+            *out.faults.entry("hostile:binding_argument".into()).or_insert(0) += 1;
         }
         seam::set_time(now + i as u64);
         seam::reseed(cfg.seed, step.id as u64, inst as u64);
